@@ -286,8 +286,11 @@ def run_case(rng, tier, case):
 def _is_f23(v, rec):
     # solver choice 'SCIPY' on a MIP: cvxpy's SCIPY (HiGHS) interface reports 'infeasible' for feasible mixed-integer problems
     # (the same problem is solved by SCIP, by the default solver and by scipy.optimize.milp called directly)
-    return (v.get('clause') == 'opt.failure_means_infeasible' and v.get('solver') == 'SCIPY' and (v.get('n_bool') or 0) > 0
-            and v.get('reference') == 'optimal')
+    # ... or returns a point far below the optimum as 'optimal' (thorough tier, seed 0 case 4752: 5117 instead of 21199; SCIP and the default solver
+    # find 21199 on the same problem object)
+    if v.get('solver') != 'SCIPY' or (v.get('n_bool') or 0) <= 0:
+        return False
+    return (v.get('clause') == 'opt.failure_means_infeasible' and v.get('reference') == 'optimal') or v.get('clause') == 'opt.no_better_point'
 
 
 CLASSIFIERS = {'c03_cvxpy_scipy_mip_false_infeasible': _is_f23}
